@@ -16,7 +16,23 @@
    NOT covered statically: the sites listed in [clone_residual] hand source-derived values (the
    cloned Entry, which carries copies of the source's prev/next handles) to a method of the fresh
    cache; that those handles are overwritten and never written through is a fact about values, which
-   Layer B (C19_frame) and the structural fingerprint of the differential check carry. *)
+   Layer B (C19_frame) and the structural fingerprint of the differential check carry.
+
+   Implicit drops.  No call is written where a value is dropped (scope end, overwriting assignment,
+   early return, unwinding).  The graph has a node "drop_glue(T)" per scanned type T whose drop runs
+   code of the scanned files (`impl Drop for T`, or a field that owns such a type); it calls `T::drop`
+   and the glue of the owned fields.  Every function has an edge to the glue of every type a value
+   of which may exist in its body (struct literals, values returned by callees, by-value parameters,
+   typed bindings; sigdump/src/graph.rs), whatever the control flow.
+   In clone: the drop of a value built by a plain constructor (the half-built clone, dropped when
+   K::clone / V::clone / Hash panics) or returned by a nested clone is a write into fresh memory
+   (listed in [clone_fresh_sites], [clone_returns_fresh] checks that what clone returns is such a
+   value); every other droppable value in clone's body is an edge of the source half.  The callees
+   of the residual sites run on the fresh cache but hold source-derived values: their explicit code
+   is what Layer B models, the drops they perform implicitly are in no model, so the source half has
+   an edge to "<callee>@drops" (GenDefs.v: the implicit drops of the callee and of everything it
+   calls).  A panic guard around the cloned entry whose Drop writes through the entry's copied
+   prev/next handles is found this way. *)
 From Coq Require Import String List Bool.
 Require Import LruV.Gen.GenDefs LruV.Gen.Sigs.
 Import ListNotations.
@@ -25,7 +41,7 @@ Open Scope list_scope.
 
 Definition clone_src : string := "LruCache::clone@source".
 
-Definition c19_graph : list fn_node := redirect "LruCache::clone" clone_src fns.
+Definition c19_graph : list fn_node := c19_graph_of "LruCache::clone" clone_src fns.
 
 (* the shared-reference operations the property names (clone by its source half) ... *)
 Definition c19_named_ops : list string :=
@@ -80,16 +96,32 @@ Theorem C19_static_nonvacuous :
            "EntryPtr::insert"; "EntryPtr::unhinge"] = true.
 Proof. vm_compute; reflexivity. Qed.
 
-(* clone: a Clone impl was found and split, its writes are rooted in a fresh local *)
+(* clone: a Clone impl was found and split, its writes are rooted in a fresh local, what it returns
+   is a fresh local; the implicit drops of the callees of the residual sites are edges of the source half *)
 Theorem C19_clone_split :
   mem clone_src shared_fns = true /\ is_nil clone_fresh_locals = false /\
-  has_write c19_graph clone_src = false /\ has_write fns "LruCache::clone" = true.
+  has_write c19_graph clone_src = false /\ has_write fns "LruCache::clone" = true /\
+  clone_returns_fresh = true /\
+  forallb (fun c => known c19_graph (c ++ drops_suffix) &&
+                    mem (c ++ drops_suffix) (callees_of c19_graph clone_src)) clone_residual_callees = true.
 Proof. repeat split; vm_compute; reflexivity. Qed.
+
+(* implicit drops: every `impl Drop` of the scanned files is called by the glue node of its type;
+   no function is named like a drops-only twin (the twins do not collide with real nodes); the
+   twins are there; some glue node does reach a write primitive (the drop edges are not vacuous) *)
+Theorem C19_drop_glue :
+  forallb (fun p => mem (snd p) (callees_of c19_graph (glue_of (fst p)))) drop_impls = true /\
+  forallb (fun n => negb (has_suffix drops_suffix (fn_name n))) fns = true /\
+  forallb (fun n => is_glue (fn_name n) || known c19_graph (fn_name n ++ drops_suffix)) fns = true /\
+  (is_nil drop_impls = false ->
+   existsb (fun n => is_glue (fn_name n) && negb (no_write_reachable c19_graph (fn_name n))) fns = true).
+Proof. repeat split; vm_compute; try reflexivity; intros _; reflexivity. Qed.
 
 Print Assumptions C19_static.
 Print Assumptions C19_roots_present.
 Print Assumptions C19_static_nonvacuous.
 Print Assumptions C19_clone_split.
+Print Assumptions C19_drop_glue.
 
 Check C19_static : forall f, In f c19_roots ->
     forall g, Reach c19_graph f g -> has_write c19_graph g = false.
